@@ -602,10 +602,10 @@ func (t *hdStrTable) check(c *vrun.Ctx, w *world, s, shape, what string, replay 
 
 func (b *builder) hdStrBytes(a hdStrAbs) []byte {
 	raw := ints2bytes(a.Version)
-	raw = append(raw, byte(b.rng.Intn(256)))       // depth
-	raw = append(raw, randBytes(b.rng, 4)...)      // parent fingerprint
-	raw = append(raw, randBytes(b.rng, 4)...)      // child number
-	raw = append(raw, randBytes(b.rng, 32)...)     // chain code
+	raw = append(raw, byte(b.rng.Intn(256)))   // depth
+	raw = append(raw, randBytes(b.rng, 4)...)  // parent fingerprint
+	raw = append(raw, randBytes(b.rng, 4)...)  // child number
+	raw = append(raw, randBytes(b.rng, 32)...) // chain code
 	key := make([]byte, 33)
 	switch a.KeyType {
 	case "priv":
